@@ -1,6 +1,6 @@
 """Table of claimed properties -> MANIFEST.json (bin/mkmanifest)."""
 
-HOOK_COMMITS = []
+HOOK_COMMITS = ["612012a"]
 
 COMMON_NOTE = ("Trusted: Lean 4.33 kernel; axioms limited to propext/Classical.choice/Quot.sound (audited with #print axioms on every run); "
                "the go/factx translator and the correspondence harness/generators/canonicalisers; Go's encoding/json, strconv, unicode/utf8 as executable "
@@ -28,6 +28,23 @@ CLAIMS = {
         "note": COMMON_NOTE,
         "technique": "Lean 4 proof (induction over byte lists, exhaustive byte tables) + differential correspondence",
     },
+}
+
+CLAIMS["C19"] = {
+    "text": "Exact big-number models of literal->float64/float32 rounding, integer range checks and shortest round-trip formatting with kernel-checked "
+            "theorems (correct rounding as a relation in N with uniqueness, sign of zero, overflow iff, integer exactness iff, round trips) for all literals "
+            "and values; the native Eisel-Lemire/Schubfach code and the JIT range checks are tied to the model and to strconv/encoding/json/math-big by "
+            "correspondence over hard-case generators, in all four environment configurations.",
+    "note": COMMON_NOTE + " fmt_shortest is partial (monotonicity of rounding not proved) and fmt_total (17/9 digits suffice) is a named assumption.",
+    "technique": "Lean 4 proof (exact arithmetic, induction) + differential correspondence vs strconv/math-big",
+}
+CLAIMS["C10"] = {
+    "text": "The tables sonic hands to the Go runtime are modelled and proved: pc-value varint tables round-trip through a model of the runtime's decoder for "
+            "every well-formed table (with kernel-checked witnesses where the encoder loses information), stack-map bitmaps are exact for every builder "
+            "program, and the frame layouts/arg pointer maps/stack-growth request regenerated from the two JIT assemblers are decided disjoint, in bounds and "
+            "covering. GC scanning of live generated frames, preemption, stack copying and write barriers are NOT modelled: only exercised (GC-stress streams).",
+    "note": COMMON_NOTE + " Partial by nature: no x86 or Go-runtime semantics; the runtime decoder is modelled for go1.23/amd64 and cross-checked against the real runtime.step via linkname.",
+    "technique": "Lean 4 proof (round-trip induction; decide over regenerated frame facts) + correspondence with the real loader/runtime; GC stress as exploration",
 }
 
 NOT_CLAIMED = {}
